@@ -18,6 +18,7 @@ type VerifSuiteRow struct {
 	ID                         uint16
 	KeyLen, MacLen, IVLen      int
 	Flags                      int
+	TLS12Only, SHA384          bool   // flags&suiteTLS12, flags&suiteSHA384
 	HasCipher, HasMac, HasAead bool   // the function fields are non-nil
 	Kind                       string // dynamic kind of what MakeConnWithCompleteHandshake would install: aead | cbc | stream | none
 	BlockSize                  int    // cbcMode.BlockSize(), else 0
@@ -31,6 +32,7 @@ type VerifSuiteRow struct {
 func verifDescribeSuite(cs *cipherSuite) (row VerifSuiteRow) {
 	row = VerifSuiteRow{
 		ID: cs.id, KeyLen: cs.keyLen, MacLen: cs.macLen, IVLen: cs.ivLen, Flags: cs.flags,
+		TLS12Only: cs.flags&suiteTLS12 != 0, SHA384: cs.flags&suiteSHA384 != 0,
 		HasCipher: cs.cipher != nil, HasMac: cs.mac != nil, HasAead: cs.aead != nil,
 		Kind: "none", EncType: "-", DecType: "-",
 	}
